@@ -3,6 +3,7 @@ import PhotVerif.Driver.Geom
 import PhotVerif.Driver.ApSum
 import PhotVerif.Driver.Detect
 import PhotVerif.Driver.Segm
+import PhotVerif.Driver.Deblend
 namespace PhotVerif.Driver
 
 /-- driver state: the objects that live across lines (state-machine models) -/
@@ -10,7 +11,7 @@ structure DState where
   segm : Option PhotVerif.Model.Segm.State := none
 
 def handlers : List (String → List String → Option String) :=
-  [handleGeom, handleMask, handleApSum, handleDetect]
+  [handleGeom, handleMask, handleApSum, handleDetect, handleDeblend]
 
 def dispatch (st : DState) (line : String) : DState × String :=
   match tokens line with
